@@ -53,7 +53,7 @@ Programs == UNION {[1..n -> ItemKinds] : n \in 1..MaxTop}
 FullProg(p) == IF WithReturn THEN p \o <<"return">> ELSE p
 
 Stmts(p) == 0..(NStmts(p) - 1)
-DirKinds == {"ignore", "start", "end"}
+DirKinds == {"ignore", "start", "end", "ignore_ml"}
 StartMarks(p) == {"before:" \o ToString(k) : k \in Stmts(p)} \cup {"infirst:" \o ToString(k) : k \in Stmts(p)} \cup {"none", "0"}
 EndMarks(p) == {"after:" \o ToString(k) : k \in Stmts(p)} \cup {"last:" \o ToString(k) : k \in Stmts(p)}
                \cup {"inlast:" \o ToString(k) : k \in Stmts(p)} \cup {"none", "len", "max", "0"}
@@ -62,10 +62,12 @@ DevOptions(p) ==
   (IF "semi" \in DevTypes THEN {[t |-> "semi", s |-> k, x |-> "", y |-> ""] : k \in Stmts(p)} ELSE {}) \cup
   (IF "dir" \in DevTypes THEN {[t |-> "dir", s |-> k, x |-> d, y |-> ""] : k \in Stmts(p), d \in DirKinds} ELSE {}) \cup
   (IF "cmt" \in DevTypes THEN {[t |-> "cmt", s |-> k, x |-> w, y |-> ""] : k \in Stmts(p), w \in {"after", "before_semi"}} ELSE {}) \cup
+  \* an untidy end of file: extra blank lines, or an indented comment with trailing spaces and blank lines after it
+  (IF "tail" \in DevTypes THEN {[t |-> "tail", s |-> NStmts(p), x |-> w, y |-> ""] : w \in {"blank", "comment"}} ELSE {}) \cup
   (IF "range" \in DevTypes THEN {[t |-> "range", s |-> 0, x |-> a, y |-> b] : a \in StartMarks(p), b \in EndMarks(p)} \ {[t |-> "range", s |-> 0, x |-> "none", y |-> "none"]} ELSE {})
 
-TypeRank(t) == CASE t = "semi" -> 1 [] t = "dir" -> 2 [] t = "cmt" -> 3 [] t = "range" -> 4
-XRank(x) == CASE x = "ignore" -> 1 [] x = "start" -> 2 [] x = "end" -> 3 [] x = "after" -> 1 [] x = "before_semi" -> 2 [] OTHER -> 0
+TypeRank(t) == CASE t = "semi" -> 1 [] t = "dir" -> 2 [] t = "cmt" -> 3 [] t = "tail" -> 4 [] t = "range" -> 5
+XRank(x) == CASE x = "ignore" -> 1 [] x = "start" -> 2 [] x = "end" -> 3 [] x = "ignore_ml" -> 4 [] x = "after" -> 1 [] x = "before_semi" -> 2 [] x = "blank" -> 1 [] x = "comment" -> 2 [] OTHER -> 0
 Rank(d) == TypeRank(d.t) * 1000 + d.s * 10 + XRank(d.x)
 
 Init == prog \in {FullProg(p) : p \in Programs} /\ devs = <<>>
@@ -81,9 +83,14 @@ Spec == Init /\ [][Next]_vars
 
 Comments ==
   LET dirText(x) == CASE x = "ignore" -> " stylua: ignore" [] x = "start" -> " stylua: ignore start" [] x = "end" -> " stylua: ignore end"
-      one(d) == CASE d.t = "dir" -> <<[before_stmt |-> d.s, kind |-> "ownlinec", text |-> dirText(d.x), slot |-> 0]>>
+      \* "ignore_ml": the directive on a line of its own inside a multi-line block comment that also says other things
+      one(d) == CASE d.t = "dir" /\ d.x = "ignore_ml" -> <<[before_stmt |-> d.s, kind |-> "mldir", text |-> "stylua: ignore", slot |-> 0]>>
+                  [] d.t = "dir" -> <<[before_stmt |-> d.s, kind |-> "ownlinec", text |-> dirText(d.x), slot |-> 0]>>
                   [] d.t = "cmt" /\ d.x = "after" -> <<[after_stmt |-> d.s, kind |-> "line", text |-> " tc", slot |-> 0]>>
                   [] d.t = "cmt" /\ d.x = "before_semi" -> <<[before_semi |-> d.s, kind |-> "block", text |-> "bs", slot |-> 0]>>
+                  \* a statement index past the last statement addresses the end of the file
+                  [] d.t = "tail" /\ d.x = "blank" -> <<[before_stmt |-> d.s, kind |-> "blankline", text |-> "", slot |-> 0]>>
+                  [] d.t = "tail" /\ d.x = "comment" -> <<[before_stmt |-> d.s, kind |-> "untidyc", text |-> " tail", slot |-> 0]>>
                   [] OTHER -> <<>>
       RECURSIVE all(_)
       all(i) == IF i > Len(devs) THEN <<>> ELSE one(devs[i]) \o all(i + 1)
